@@ -42,7 +42,7 @@ THEOREM_CLASSES = {
     "C17_tonumber_exact": "main", "C17_trunc_floor_ceil_exact": "main", "C17_bytes_exact": "main", "C17_todecsci_exact": "corollary",
     "C17_objects_unary": "main", "C17_objects_binary": "main", "C17_objects_shift_rotate": "main", "C17_objects_division": "main",
     "C17_objects_pow_scalar": "main",
-    "C17_frombase_domain": "main", "C17_frombase_space_uniform_refuted": "refutation",
+    "C17_frombase_uniform": "corollary", "C17_frombase_guard_needed": "refutation",
     "C17_literal_split_partition": "main", "C17_literal_text_exact": "main",
     "C17_rotate_reduction_needed": "refutation", "C17_upowmod_mulmod_needed": "refutation", "C17_literal_check_needed": "refutation",
 }
@@ -50,7 +50,7 @@ ALLOWED_AXIOMS = []
 TRUSTED_BASE = [
     "coqc 8.16.1 kernel (vm_compute used for parameter facts; no native_compute)",
     "no axioms: every theorem of coq/C17/Properties.v is 'Closed under the global context'",
-    "policy discriminators scraped into Gen.v (upowmod_mulmod, rot_reduces_count, dec_literal_checked): the three repaired functions are modelled for both policies, the exact theorems are proved from the fact that the scraped policy is the repaired one and the `_needed` theorems refute the other policy",
+    "policy discriminators scraped into Gen.v (upowmod_mulmod, rot_reduces_count, dec_literal_checked, frombase_short_guarded): the four repaired functions are modelled for both policies, the exact theorems are proved from the fact that the scraped policy is the repaired one and the `_needed` theorems refute the other policy",
     "translator checks/C17.py:gen (regex scrape of bint(<bits>) in utils/bn.lua, of the word-size default and of the BASE_LETTERS string in thirdparty/bint.lua)",
     "extraction: Require Extraction + ExtrOcamlBasic only (bool,option,unit,list,prod,sumbool,sumor mapped to OCaml; Z/N/positive/nat stay Coq inductives); no Extract Constant of our own",
     "ocaml/zutil.ml + coq/C17/driver.ml (hex text <-> extracted Z), harness/C17/ops.lua (calls bn/bint), OCaml 4.13.1, gcc (interpreter rebuilt from /repo/src)",
@@ -135,6 +135,13 @@ def gen(ctx):
         dec_checked = False
     else:
         raise RuntimeError("cannot classify the decimal branch of bn.from (range test present or not)")
+    fb = fbody(bint, "function bint.frombase(")
+    if re.search(r"if\s+#s\s*<\s*step\s+and\s+s:find\('\^\[\+-\]\?%w\+\$'\)\s+then", fb):
+        fb_guarded = True
+    elif re.search(r"if\s+#s\s*<\s*step\s+then", fb):
+        fb_guarded = False
+    else:
+        raise RuntimeError("cannot classify the short-string fast path of bint.frombase (guarded by '^[+-]?%w+$' or not)")
     cb = lambda b: "true" if b else "false"
     txt = ("(* GENERATED by checks/C17.py from /repo (bn.lua, bint.lua) - do not edit *)\n"
            "From Coq Require Import ZArith List.\n"
@@ -146,7 +153,9 @@ def gen(ctx):
            "Definition rot_reduces_count : bool := %s.\n"
            "(* bn.from's decimal branch tests todecint(n) against the digits read (true) or keeps the parsed value (false) *)\n"
            "Definition dec_literal_checked : bool := %s.\n"
-           % (bits, wordbits, "".join("%d%%Z :: " % c for c in codes), cb(upowmod_mulmod), cb(rot_reduces), cb(dec_checked)))
+           "(* frombase takes the tonumber fast path only for short strings of the shape ^[+-]?%%w+$ (true) or for every short string (false) *)\n"
+           "Definition frombase_short_guarded : bool := %s.\n"
+           % (bits, wordbits, "".join("%d%%Z :: " % c for c in codes), cb(upowmod_mulmod), cb(rot_reduces), cb(dec_checked), cb(fb_guarded)))
     vlib.write_if_changed(os.path.join(vlib.coq_dir(ID), "Gen.v"), txt)
     set_width(bits, wordbits)
     global FP_SCALE
@@ -156,13 +165,13 @@ def gen(ctx):
     if changed and ctx is not None:
         ctx.note("source text of %s differs from the modelled revision: random budget x%d" % (", ".join(changed), FP_SCALE))
     return {"bint_bits": bits, "word_bits": wordbits, "base_letters": letters[:nletters],
-            "upowmod_mulmod": upowmod_mulmod, "rot_reduces_count": rot_reduces, "dec_literal_checked": dec_checked, "fingerprints": fps,
+            "upowmod_mulmod": upowmod_mulmod, "rot_reduces_count": rot_reduces, "dec_literal_checked": dec_checked, "frombase_short_guarded": fb_guarded, "fingerprints": fps,
             "changed_since_modelled": changed}
 
 
 # normalised-text fingerprints (comments and white space removed) of the two files at the time the model was
 # written; a different fingerprint is NOT a violation, it multiplies the random budget of the run (DESIGN C17, tie)
-MODELLED_FP = {'thirdparty/bint.lua': '4d11d678045edd33', 'utils/bn.lua': '7fecd89819776f71'}
+MODELLED_FP = {'thirdparty/bint.lua': 'af861fd234e39d92', 'utils/bn.lua': '7fecd89819776f71'}
 FP_SCALE = 1
 
 
@@ -610,13 +619,9 @@ SIG.update(OPS4)
 
 # inputs on which the unchanged code is known to deviate from the property (see known_findings/C17.json);
 # they are replayed on every run and reported under exactly these keys
-WS_WITNESSES = [(b" 12", 10), (b"12 ", 10), (b"\t-7\n", 10), (b" 12", 16), (b"12 ", 16), (b"\t-7\n", 16)]
-
-
 def known_replays():
-    """(op, args, exact key) of the inputs on which the unchanged code deviates from the property"""
-    return [("frombase", (t, b), "bint:frombase %s %s" % (t.hex(), hexs(b))) for t, b in WS_WITNESSES] + [
-    ]
+    """(op, args, exact key) of the inputs on which the unchanged code deviates from the property: none at present"""
+    return []
 
 
 KNOWN_REPLAYS = known_replays()
@@ -750,13 +755,13 @@ def gen_cases(ctx):
         n = rng.choice([0, 1, 2, 5, 20, 70])
         s = "".join(rng.choice(DIGITS[:base] + rng.choice(["", DIGITS[base:base + 1], "-", "+", ".", "_"])) for _ in range(n))
         add("frombase-malformed", "frombase", (rng.choice(["", "-", "+", "--"]) + s).encode(), base)
-    # white space: documented result nil.  Short strings with SURROUNDING white space are accepted by the unchanged code
-    # (known finding, the six designated witnesses are replayed from KNOWN_REPLAYS); everything below is nil in the code too
+    # white space: nil on both paths (the six witnesses of the repaired defect, /repo 4105672, are in the corpus)
     for t in (b" ", b"1 2", b"+ 1", b"- 1", b" 12" + b"0" * 70, b"0" * 70 + b"12 ", b" " + b"1" * 64, b"\t" + b"f" * 40 + b"\n"):
         for base in (10, 16, 2):
             add("frombase-space", "frombase", t, base)
-    for t in (b" 12", b"12 ", b"\t-7\n"):
-        add("frombase-space", "frombase", t, 2)
+    for t in (b" 12", b"12 ", b"\t-7\n", b" 1", b"1 "):
+        for base in (2, 10, 16, 36):
+            add("frombase-space", "frombase", t, base)
     for _ in range(ctx.scale(300, 5000)):
         v = rng.getrandbits(rng.randrange(1, BITS + 40))
         neg = rng.random() < .4
